@@ -25,6 +25,87 @@ func init() {
 	}
 }
 
+// c04host: ONE token decides at two exclusive gateways in a row; between the two decisions the HOST changes the variable
+// the second decision reads (Process.Locator().SetVariable) — or a variable the first one reads, before it. "For the
+// current variable values": each decision sees the values of the moment it is made.
+func init() {
+	caseFamilies["c04host"] = &caseFamily{
+		Shard: 1, Par: 12,
+		Count: func(tier string) int { return 16 },
+		Run: func(out *rec.Out, idx int, rng *rec.Rng, tier string, stats map[string]int) {
+			c04host(out, idx, rng, stats)
+		},
+	}
+}
+
+func c04host(out *rec.Out, idx int, rng *rec.Rng, stats map[string]int) {
+	w0, w1 := idx&1, (idx>>1)&1   // value of w at the start / set by the host
+	when := (idx >> 2) & 1         // 0: host writes while the token waits at R (right before the second decision); 1: while it waits at B
+	early := (idx >> 3) & 1        // 1: the host also flips b before the FIRST decision
+	g := eng.NewGraph()
+	st := g.Add("startEvent", "start", "")
+	a := g.Add("task", "A", "")
+	x1 := g.Add("exclusiveGateway", "X1", "")
+	b0, b1 := g.Add("task", "B0", ""), g.Add("task", "B1", "")
+	m := g.Add("exclusiveGateway", "M", "")
+	r := g.Add("task", "R", "")
+	x2 := g.Add("exclusiveGateway", "X2", "")
+	c0, c1 := g.Add("task", "C0", ""), g.Add("task", "C1", "")
+	en := g.Add("endEvent", "end", "")
+	g.Connect(st, a, nil)
+	g.Connect(a, x1, nil)
+	g.Connect(x1, b0, &eng.Cond{Op: "eq", Var: "b", K: 1})
+	x1.Default = g.Connect(x1, b1, nil).ID
+	g.Connect(b0, m, nil)
+	g.Connect(b1, m, nil)
+	g.Connect(m, r, nil)
+	g.Connect(r, x2, nil)
+	g.Connect(x2, c0, &eng.Cond{Op: "eq", Var: "w", K: 1})
+	x2.Default = g.Connect(x2, c1, nil).ID
+	g.Connect(c0, en, nil)
+	g.Connect(c1, en, nil)
+	out.Begin("c04host", w0, w1, when, early)
+	defer out.End()
+	vars := map[string]int{"b": 0, "w": w0}
+	in, defs, err := eng.Start(g.XML(), map[string]any{"b": 0, "w": w0})
+	if err != nil {
+		out.Line("harness-error %v", err)
+		return
+	}
+	for _, l := range eng.ProgLines(&(*defs.Processes())[0], g.CondRPN) {
+		out.Line("prog %s", l)
+	}
+	out.Line("prog vars %s", fmtVars(vars))
+	stats["cases"]++
+	for steps := 0; steps < 12; steps++ {
+		if !in.Quiesce(4 * timeSecond) {
+			in.Note("obs noquiesce")
+			break
+		}
+		p := in.Pending()
+		if len(p) == 0 {
+			break
+		}
+		q := p[0]
+		switch {
+		case q.Node == "A" && early == 1:
+			in.SetVar("b", 1)
+			stats["host_writes"]++
+		case (q.Node == "B0" || q.Node == "B1") && when == 1, q.Node == "R" && when == 0:
+			in.SetVar("w", w1)
+			stats["host_writes"]++
+		}
+		in.AnswerOK(q, nil)
+	}
+	complete := in.WaitComplete(300 * timeMillisecond)
+	in.Quiesce(2 * timeSecond)
+	for _, l := range in.Lines() {
+		out.Line("%s", l)
+	}
+	out.Line("obs final complete=%d vars=%s", rec.B(complete), in.Vars())
+	in.Stop(2 * timeSecond)
+}
+
 type c04case struct {
 	c      int // conditional flows
 	defPos int // -1 none, else position of the default flow in the outgoing list (0..c)
